@@ -836,6 +836,24 @@ func (r *rw) accesses(nodes ...ast.Node) []ast.Stmt {
 				x.Body.List = r.stmts(x.Body.List)
 				return false
 			case *ast.CallExpr:
+				if fid, isId := x.Fun.(*ast.Ident); isId && fid.Name == "append" && len(x.Args) >= 2 && sideEffectFree(x.Args[0]) {
+					if _, isBuiltin := r.info.Uses[fid].(*types.Builtin); isBuiltin {
+						if t := r.info.TypeOf(x.Args[0]); t != nil {
+							if sl, isSlice := t.Underlying().(*types.Slice); isSlice {
+								if b, isBasic := sl.Elem().Underlying().(*types.Basic); !(isBasic && b.Kind() == types.Uint8) {
+									// append to a slice with spare capacity writes its first spare element in place: memory shared
+									// with every other holder of the backing array ([]byte goes through vsched.AppendBytes)
+									a := x.Args[0]
+									spare := &ast.UnaryExpr{Op: token.AND, X: &ast.IndexExpr{X: &ast.SliceExpr{X: a, High: &ast.CallExpr{Fun: ident("cap"), Args: []ast.Expr{a}}}, Index: &ast.CallExpr{Fun: ident("len"), Args: []ast.Expr{a}}}}
+									outS = append(outS, &ast.IfStmt{
+										Cond: &ast.BinaryExpr{X: &ast.CallExpr{Fun: ident("len"), Args: []ast.Expr{a}}, Op: token.LSS, Y: &ast.CallExpr{Fun: ident("cap"), Args: []ast.Expr{a}}},
+										Body: &ast.BlockStmt{List: []ast.Stmt{&ast.ExprStmt{X: r.call("AccessNoYield", spare, strLit("slice element (append in place)"), boolLit(true), strLit(r.site(x.Pos())))}}},
+									})
+								}
+							}
+						}
+					}
+				}
 				if sel, write, ok := r.atomicCall(x); ok {
 					// atomic.F(&obj.field, ...): an atomic access of the field, not a plain one
 					atomicSel[sel] = true
